@@ -161,7 +161,7 @@ func newLockAn(c *Ctx, entries []*ssa.Function, scope map[*ssa.Function]bool) *L
 // the state at that call. Only synchronous callback receivers are accepted (reviewed list).
 var syncCallbackReceivers = map[string]bool{
 	"(*go.etcd.io/bbolt.DB).View": true, "(*go.etcd.io/bbolt.DB).Update": true, "sort.Slice": true, "sort.SliceStable": true,
-	"strings.Map":                 true,
+	"strings.Map":                          true,
 	modPath + "/internal/queryparser.Walk": true,
 }
 
